@@ -448,6 +448,20 @@ impl Exec {
                         self.last_fw = Some(fw);
                         self.life[fw] = Life::InProgress;
                         self.life[par] = Life::None;
+                        let maxl = self.f.word(par * self.slot + 12) as usize;
+                        // C15: the capacity delivered is at least the documented one
+                        let (szz, room) = (sz as usize, self.slot);
+                        let mut doc = 0usize;
+                        for l in 0..2048usize {
+                            if 17408 + l * szz + 4 * (l / 8) * (l / 8 + 1) + (l % 8) * (l / 8 + 1) < room {
+                                doc = l;
+                            }
+                        }
+                        let parses = (1..=16384).contains(&(maxl as u32));
+                        let got = if parses { maxl } else { 0 };
+                        if got < doc && !armed {
+                            o.fail_key("C15", "capacity-below-documented", format!("start_update({}, {}) on slot size {}: parity capacity {} is below the documented {}", sz, n, self.slot, got, doc));
+                        }
                         extra = format!(" ; fw={} ; par={} ; maxl={}", fw, par, self.f.word(par * self.slot + 12));
                     } else {
                         o.fail("C08", format!("start_update touched {} slots: {:?}", touched.len(), touched));
